@@ -48,7 +48,7 @@ class World:
         self.dump = self.p("dump.json")
         self.script_path = self.p("script.json")
 
-    def run(self, phase, script, arg0=None, args=None, env=None, bpdir=True, extra_env=None, cwd=None, preload=None, timeout=60):
+    def run(self, phase, script, arg0=None, args=None, env=None, bpdir=True, extra_env=None, cwd=None, preload=None, timeout=60, exe=None):
         script = dict(script)
         script.setdefault("log", self.log)
         script.setdefault("dump", self.dump)
@@ -59,6 +59,9 @@ class World:
         if bpdir:
             e["CNB_BUILDPACK_DIR"] = self.p("bp")
         e["VB_SCRIPT"] = self.script_path
+        # an unrelated variable of the buildpack process that is not valid Unicode (a Latin-1 value
+        # exported by the platform): no concern of the framework
+        e["VERIF_UNRELATED_LATIN1"] = "caf\udce9"
         if extra_env:
             e.update(extra_env)
         if preload:
@@ -69,7 +72,7 @@ class World:
             else:
                 args = [self.p("layers"), self.p("platform"), self.p("bp_plan.toml")]
         argv0 = arg0 if arg0 is not None else phase
-        r = subprocess.run([argv0] + list(args), executable=VB, env=e, cwd=cwd or self.p("app"),
+        r = subprocess.run([argv0] + list(args), executable=exe or VB, env=e, cwd=cwd or self.p("app"),
                            stdout=subprocess.PIPE, stderr=subprocess.PIPE, timeout=timeout)
         return r
 
